@@ -164,7 +164,7 @@ def reference_streams(spec, n_jobs, wd):
 
 
 def _job(args):
-    W, seed, depth, max_dev, max_restarts = args
+    W, seed, depth, max_dev, max_restarts, budget = args
     spec = mkspec(W, seed)
     wd = os.path.join(scratch.mkdtemp("c07"), "run")
     old = os.getcwd()
@@ -176,13 +176,13 @@ def _job(args):
         # in the reference history positions (i, 1) exist only for zero-swap jobs; fill from any history lazily
 
         def fn(ch):
-            run, marks = run_one(spec, depth, max_restarts, ch, wd)
+            run, marks = run_one(spec, depth, max_restarts, ch, wd, budget=budget)
             return run.issued, marks
 
         for ch, res in explore(l1._guard(fn), max_dev=max_dev, free=("complete", "restart")):
             n += 1
             if isinstance(res, l1.Violation):
-                viols.setdefault(res.sig, (res.msg, dict(kind="hist", W=W, seed=seed, depth=depth,
+                viols.setdefault(res.sig, (res.msg, dict(kind="hist", W=W, seed=seed, depth=depth, budget=budget,
                                                          max_restarts=max_restarts, choices=ch.choices)))
                 continue
             issued, marks = res
@@ -190,7 +190,7 @@ def _job(args):
             for (o, pos) in [(i, 1) for i, r in enumerate(issued) if len(r["ens"]) == 2]:
                 pass
             for sig, msg in judge_history(issued, marks, ref, seed):
-                viols.setdefault(sig, (msg, dict(kind="hist", W=W, seed=seed, depth=depth,
+                viols.setdefault(sig, (msg, dict(kind="hist", W=W, seed=seed, depth=depth, budget=budget,
                                                  max_restarts=max_restarts, choices=ch.choices)))
     finally:
         os.chdir(old)
@@ -205,7 +205,8 @@ def run(ctx):
     depth = 3 if ctx.quick else 4
     max_dev = 1 if ctx.quick else 2
     seeds = sorted({0, 1, 7, 2 + ctx.seed % 1000})
-    jobs = [(W, seed, depth if W < 3 else 3, max_dev if W < 3 else 1, 2) for W in (3, 2, 1) for seed in seeds
+    # a restart with a budget only differs from a plain one when more than one job is on record (W >= 3)
+    jobs = [(W, seed, depth if W < 3 else 3, max_dev if W < 3 else 1, 2, W >= 3 or not ctx.quick) for W in (3, 2, 1) for seed in seeds
             if W < 3 or not ctx.quick or seed in (1, 7)]
     with mp.get_context("fork").Pool(min(16, os.cpu_count() or 1)) as pool:
         res = pool.map(_job, jobs, chunksize=1)
@@ -247,7 +248,7 @@ def replay(data):
     old = os.getcwd()
     try:
         ref = reference_streams(spec, depth + W + 2, wd)
-        res = l1._guard(lambda ch: run_one(spec, depth, data["max_restarts"], Chooser(data["choices"]), wd))(None)
+        res = l1._guard(lambda ch: run_one(spec, depth, data["max_restarts"], Chooser(data["choices"]), wd, budget=data.get("budget", True)))(None)
         if isinstance(res, l1.Violation):
             return [(f"scheduler:{res.sig}:W{'1' if W == 1 else '>1'}", res.msg)]
         run, marks = res
